@@ -222,22 +222,50 @@ def run(ctx):
                                                                  'before': repr(before), 'after': repr(after)})
     ctx.stage('frame')
 
-    # transmission
+    # transmission.  A failing chain is blamed on the first transition after which the
+    # transmitted values depart from those of the run without a switch, so that the signature
+    # names a transition, not one of the many chains that contain it.
+    def blame(m0, regs, ch, b, kind):
+        modes = [m0] + ch
+        for k in range(1, len(ch) + 1):
+            o2 = observe(world, m0, regs, ch[:k])
+            if not o2.ok:
+                return modes[k - 1], modes[k], o2
+            if kind == 'delay':
+                item = '(%s, %s)' % (('None' if b.pause is None else '(Some %s)' % coq_f(b.pause)),
+                                     ('None' if o2.pause is None else '(Some %s)' % coq_f(o2.pause)))
+                v = U.coq_eval('c14bl', SPEC_IMPORT, 'same_delay_cases', [item])[0]
+                bad = v != '='
+            else:
+                item = '(%s, %s, %s)' % (common.coq_bool('rgb' in modes[:k + 1]), common.coq_list([common.coq_z(z) for z in b.sent]),
+                                         common.coq_list([common.coq_z(z) for z in o2.sent]))
+                v = U.coq_eval('c14bl', SPEC_IMPORT, 'same_sent_cases', [item])[0]
+                bad = (v[0] == '!') if kind == 'colour' else (v[1] == '!')
+            if bad:
+                return modes[k - 1], modes[k], o2
+        return modes[-2], modes[-1], None
+
     got = U.coq_eval('c14snt', SPEC_IMPORT, 'same_sent_cases', sent_items, per_file=500)
-    for v, (m0, regs, ch, b, o) in zip(got, sent_meta):
+    reported = 0
+    for v, (m0, regs, ch, b, o) in sorted(zip(got, sent_meta), key=lambda t: len(t[1][2])):
         ctx.count()
-        if v == '==':
+        if v == '==' or reported >= 12:
             continue
+        reported += 1
         what = 'colour' if v[0] == '!' else 'duration'
-        ctx.counterexample('C14/%s-changes-%s' % ('>'.join([m0] + ch), what),
-                           'registers %r in %s units: `set` transmits %r without a switch and %r after %s'
-                           % (dict(zip(SETTINGS, regs)), m0, b.sent, o.sent, ' '.join('units ' + x for x in ch)),
+        f, t, o2 = blame(m0, regs, ch, b, what)
+        ctx.counterexample('C14/%s-to-%s-changes-%s' % (f, t, what),
+                           'registers %r in %s units: `set` transmits %r without a switch and %r after %s (first departing at `units %s` while in %s units)'
+                           % (dict(zip(SETTINGS, regs)), m0, b.sent, o.sent, ' '.join('units ' + x for x in ch), t, f),
                            {'script': o.src, 'baseline_script': b.src, 'baseline': b.sent, 'switched': o.sent, 'chain': ch, 'mode': m0})
     got = U.coq_eval('c14dly', SPEC_IMPORT, 'same_delay_cases', delay_items, per_file=500)
-    for v, (m0, regs, ch, b, o) in zip(got, delay_meta):
+    reported = 0
+    for v, (m0, regs, ch, b, o) in sorted(zip(got, delay_meta), key=lambda t: len(t[1][2])):
         ctx.count()
-        if v != '=':
-            ctx.counterexample('C14/%s-changes-delay' % '>'.join([m0] + ch),
+        if v != '=' and reported < 12:
+            reported += 1
+            f, t, o2 = blame(m0, regs, ch, b, 'delay')
+            ctx.counterexample('C14/%s-to-%s-changes-delay' % (f, t),
                                'time %r in %s units: the pending pause is %r s without a switch and %r s after %s'
                                % (regs[8], m0, b.pause, o.pause, ' '.join('units ' + x for x in ch)),
                                {'script': o.src, 'baseline_script': b.src, 'chain': ch, 'mode': m0})
